@@ -4,6 +4,7 @@ import RawPanelVerif.Lemmas.DecShape
 import RawPanelVerif.Lemmas.DecSound2
 import RawPanelVerif.Lemmas.DecSound3
 import RawPanelVerif.Lemmas.DecGfx3
+import RawPanelVerif.Lemmas.DecCtx
 import RawPanelVerif.Lemmas.EncDom3
 import RawPanelVerif.Lemmas.DecFacts
 import RawPanelVerif.Lemmas.StripIdem
@@ -29,6 +30,14 @@ Main theorems (line sequences of any length, any interleaving):
 * `dec_sound` (guard `noBlankImage`, `dec_sound_guard_exact`, `dec_sound_blank_image_counterexample`, `dec_sound_nb`),
   `nongrammar_silent`, `nongrammar_decLine`, `gfx_part_step`, `gfx_line`, `dec_sound_nogfx`, `dec_sound_partial` — see the
   section comments below.
+* `dec_context_free` (`dec_context_free_nb`, `line_decoded_alone`) — batches WITH lines outside the grammar's domain
+  (`classify = .outside`: an enumerated value outside its enumeration such as `SimulateEnvironmentalHealth=Weird`,
+  `HWCrawADCValues#5=2`, a malformed number …; not graphics parts): on `Spec.In.inDomainLinesCtx` the decoded batch has
+  the reader's effects for every well-formed / non-grammar line, in line order, and for every outside line exactly the
+  effects that line has when decoded alone (`Spec.In.readInboundWith`) — no line repeats, drops or alters the message of
+  a neighbour.  `line_decoded_alone`: what the decoder appends for a line that `regex_gfx` does not accept depends on
+  nothing but the line.  The check evaluates `readInboundWith` on the implementation with `alone l` = what the
+  implementation returns for `[l]` (`din.ctx` records).
 * `enc_in_domain`, `roundtrip_in` — C01 and C02 composed: for messages of `inDomainIn` (plus the decidable
   `roundtripGuard`, without which both are false: `enc_in_domain_flag_counterexample`,
   `roundtrip_in_unguarded_counterexample`, `roundtrip_in_calibration_counterexample`) the encoder's lines are in
@@ -303,6 +312,78 @@ image -/
 theorem dec_sound_nb (O : Oracles) (ls : List Bytes) (h : inDomainLines O ls = true) :
     ∃ ms, decInE O ls = .ok ms ∧ ms.flatMap effectsOfMsgOpt = readFromNB O none ls :=
   DecGfx.dec_sound_nb O ls h
+
+/-! ### batches with lines outside the grammar's domain: no line changes what its neighbours denote -/
+
+/-- effects of what the decoder model returns for the one-line batch `[l]` -/
+abbrev aloneModel := DecCtx.aloneModel
+
+/-- what the decoder appends for a line that is not accepted by `regex_gfx` does not depend on the messages decoded
+so far nor on the graphics reassembly state (which it leaves alone) -/
+theorem line_decoded_alone (O : Oracles) (l : Bytes) (hg : matchGfx l = none) :
+    ∃ outs : List (Option InMsg), ∀ st : DecSt, decLine O false st l = .ok { st with out := st.out ++ outs } :=
+  DecCtx.decLine_local O l hg
+
+/-- **dec_context_free, unguarded form** (any length, any interleaving; cf. `dec_sound_nb`) -/
+theorem dec_context_free_nb (O : Oracles) (ls : List Bytes) (h : inDomainLinesCtx O ls = true) :
+    ∃ ms, decInE O ls = .ok ms ∧ ms.flatMap effectsOfMsgOpt = DecCtx.readFromNBWith O (aloneModel O) none ls :=
+  DecCtx.dec_context_free_nb O ls h
+
+/-- **dec_context_free**: on every batch whose lines are well-formed, non-grammar, or outside the domain without being
+graphics parts (graphics transfers in order; guard of `dec_sound`: no transfer delivers the all-default image) the
+decoder does not panic and its messages have the reader's effects for the lines the grammar reads and, for every outside
+line, the effects of that line decoded alone, all in line order -/
+theorem dec_context_free (O : Oracles) (ls : List Bytes) (h : inDomainLinesCtx O ls = true)
+    (hb : DecCtx.noBlankImageCtx O none ls = true) :
+    ∃ ms, decInE O ls = .ok ms ∧ ms.flatMap effectsOfMsgOpt = readInboundWith O (aloneModel O) ls :=
+  DecCtx.dec_context_free O ls h hb
+
+/-- the domain of `dec_sound` is contained in the one of `dec_context_free`, and there the two readings coincide -/
+theorem ctx_domain_contains_domain (O : Oracles) (alone : Bytes → List Effect) (ls : List Bytes) (h : inDomainLines O ls = true) :
+    inDomainLinesCtx O ls = true ∧ readInboundWith O alone ls = readInbound O ls := by
+  unfold inDomainLines at h
+  simp only [Bool.and_eq_true, List.all_eq_true, bne_iff_ne, ne_eq] at h
+  have hlone : ∀ l ∈ ls, isLoneLine O l = false := by
+    intro l hl
+    unfold isLoneLine
+    have := h.1 l hl
+    cases hc : classify O l <;> simp_all
+  have key : ∀ (ls : List Bytes), (∀ l ∈ ls, isLoneLine O l = false) → ∀ x,
+      gfxDisciplineCtx O x ls = gfxDiscipline O x ls ∧ readFromWith O alone x ls = readFrom O x ls := by
+    intro ls
+    induction ls with
+    | nil => intro _ x; exact ⟨rfl, rfl⟩
+    | cons l ls ih =>
+      intro hl x
+      have h0 : isLoneLine O l = false := hl l (by simp)
+      have ih' := ih (fun y hy => hl y (by simp [hy]))
+      unfold gfxDisciplineCtx gfxDiscipline readFromWith readFrom
+      simp only [h0, Bool.false_eq_true, if_false]
+      cases hr : readLine O l with
+      | effects es => simp only []; exact ⟨(ih' x).1, by rw [(ih' x).2]⟩
+      | gfx p =>
+        simp only []
+        refine ⟨?_, by rw [(ih' _).2]⟩
+        split
+        · rfl
+        · exact (ih' _).1
+  refine ⟨?_, (key ls hlone none).2⟩
+  unfold inDomainLinesCtx
+  simp only [Bool.and_eq_true, List.all_eq_true, Bool.or_eq_true, bne_iff_ne, ne_eq, Bool.not_eq_true']
+  exact ⟨fun l hl => Or.inl (h.1 l hl), by rw [(key ls hlone none).1]; exact h.2⟩
+
+/-- non-vacuity: an enumerated value outside its enumeration between two state lines, inside an open graphics transfer:
+the batch is in the domain of `dec_context_free` and not in the one of `dec_sound`; the line alone decodes to nothing,
+so the reading has exactly the effects of the other lines; a different `alone` shows in the reading, in place -/
+example : classify default (asc "SimulateEnvironmentalHealth=Weird") = .outside ∧
+    inDomainLines default [asc "HWC#5=4", asc "SimulateEnvironmentalHealth=Weird", asc "HWC#5=0"] = false ∧
+    inDomainLinesCtx default [asc "HWCg#1=0/1,8x8:AAAA", asc "HWC#5=4", asc "SimulateEnvironmentalHealth=Weird", asc "HWCg#1=1:AAAA", asc "HWC#5=0"] = true ∧
+    DecCtx.noBlankImageCtx default none [asc "HWCg#1=0/1,8x8:AAAA", asc "HWC#5=4", asc "SimulateEnvironmentalHealth=Weird", asc "HWCg#1=1:AAAA", asc "HWC#5=0"] = true ∧
+    readInboundWith default (fun _ => []) [asc "HWC#5=4", asc "SimulateEnvironmentalHealth=Weird", asc "HWC#5=0"] =
+      [.setMode 5 { state := 4, output := false, blink := 0 }, .setMode 5 { state := 0, output := false, blink := 0 }] ∧
+    readInboundWith default (fun _ => [.flow .ping]) [asc "HWC#5=4", asc "SimulateEnvironmentalHealth=Weird", asc "HWC#5=0"] =
+      [.setMode 5 { state := 4, output := false, blink := 0 }, .flow .ping, .setMode 5 { state := 0, output := false, blink := 0 }] := by
+  decide +kernel
 
 /-- one graphics part (sub-matches `m` of the line denote the part `p`, `DecGfx.GRel`): from corresponding states
 (`DecGfx.Inv`) the decoder's `decGfx` (repaired semantics) and the reader's `stepGfx` reach corresponding states, and
